@@ -30,6 +30,9 @@ type (
 		quitSignal      chan struct{}
 
 		disableClientSetInfo bool // special flag for redis client issue
+
+		cxns        map[*clientCxn]struct{} // connections accepted by this emulator
+		terminating bool
 	}
 )
 
@@ -95,6 +98,37 @@ func (eng *RedisEmu) RequestTermination() {
 	if eng.cancelFn != nil {
 		eng.cancelFn()
 		eng.cancelFn = nil
+	}
+
+	// existing connections are closed too: after termination no client may read or modify data
+	eng.terminating = true
+	for cc := range eng.cxns {
+		cc.RequestClose()
+	}
+}
+
+// remembers a connection of this emulator, so that termination can close it and wait for it
+func (eng *RedisEmu) trackCxn(cc *clientCxn) {
+	eng.mu.Lock()
+	defer eng.mu.Unlock()
+
+	if eng.cxns == nil {
+		eng.cxns = map[*clientCxn]struct{}{}
+	}
+	eng.cxns[cc] = struct{}{}
+
+	eng.wg.Add(1)
+	go func() {
+		defer eng.wg.Done()
+		<-cc.done
+		eng.mu.Lock()
+		delete(eng.cxns, cc)
+		eng.mu.Unlock()
+	}()
+
+	if eng.terminating {
+		// accepted while the emulator was already shutting down
+		cc.RequestClose()
 	}
 }
 
@@ -227,7 +261,7 @@ func (eng *RedisEmu) startServer() {
 				break
 			}
 			eng.l.Infof("client connected: %s", connection.RemoteAddr().String())
-			newClientCxn(eng.l, connection, dispatcher)
+			eng.trackCxn(newClientCxn(eng.l, connection, dispatcher))
 		}
 	}()
 }
